@@ -64,7 +64,25 @@ pub fn run_one(ctx: &mut Ctx, idx: usize) {
     ctx.flush_each = true;
     VIA_TRAIT.store(true, std::sync::atomic::Ordering::Relaxed);
     ANNOUNCE.store(true, std::sync::atomic::Ordering::Relaxed);
-    if let Some(c) = all.get(idx) { run_case(ctx, "C18", &c.w, &c.steps); }
+    if let Some(c) = all.get(idx) {
+        use crate::env::{DETAIL, DETAIL_KNOWN_IDS, DETAIL_ON};
+        use std::sync::atomic::Ordering::Relaxed;
+        *DETAIL_KNOWN_IDS.lock().unwrap() = c.w.preload.iter().map(|p| p.credential_id.to_vec()).collect();
+        DETAIL_ON.store(true, Relaxed);
+        run_case(ctx, "C18", &c.w, &c.steps);
+        let via_trait: Vec<String> = std::mem::take(&mut *DETAIL.lock().unwrap());
+        // the same case once more on identically prepared authenticators through the inherent methods: whatever the
+        // stores and the user-validation method are handed, and every result, must coincide (random draws aside)
+        VIA_TRAIT.store(false, Relaxed); ANNOUNCE.store(false, Relaxed); ctx.mute = true;
+        run_case(ctx, "C18", &c.w, &c.steps);
+        ctx.mute = false; DETAIL_ON.store(false, Relaxed);
+        let direct: Vec<String> = std::mem::take(&mut *DETAIL.lock().unwrap());
+        let obs = if via_trait == direct { "same".to_string() } else {
+            let k = via_trait.iter().zip(direct.iter()).position(|(a, b)| a != b).unwrap_or(via_trait.len().min(direct.len()));
+            format!("differs:{}", crate::util::hexf(format!("record {}: trait [{}] direct [{}]", k, via_trait.get(k).map(|s| s.as_str()).unwrap_or("-"), direct.get(k).map(|s| s.as_str()).unwrap_or("-")).as_bytes())) };
+        ctx.stat(if obs == "same" { "c18.twin.same" } else { "c18.twin.differs" });
+        ctx.line(&format!("au.twin {}", idx), &obs);
+    }
 }
 
 /// parent: one child per case
